@@ -1,4 +1,6 @@
 import VermouthProofs.C03_Top
+import VermouthProofs.C03_Text
+import VermouthProofs.C03_Sort
 import VermouthProps.C03
 /-!
 # C03 — the `.top` text: round trip through an independent reader, and which ITP files exist
@@ -231,5 +233,14 @@ theorem empty_header_indexerror (inp : TopIn) (hs : inp.sys ≠ []) (hp : inp.pa
   | nil => exact absurd hws hw
   | cons w ws =>
     simp [writeTopology, hse, paramFile, hp, hh, hws, itpHeaders, headerStep]
+
+/-- the text-level sort (nodes with their decorations) is `SortMoleculeAtoms` on the nodes -/
+theorem sortTMol_nodes (t : TMol) :
+    (sortTMol t).mol.nodes = sortMoleculeAtoms sortbyDefault none t.mol.nodes := by
+  simp only [sortTMol, sortMoleculeAtoms]
+  rw [insSortBy_map (fun p q : Atom × Deco => sortLe sortbyDefault p.1 q.1) (sortLe sortbyDefault) Prod.fst
+    t.atoms (fun _ _ _ _ => rfl)]
+  unfold TMol.atoms
+  rw [zipDeco_fst]
 
 end C03
